@@ -70,6 +70,8 @@ inductive Op1
   | unstack (i : Nat)                       -- unstack(t)[i]
   | oneMinus                                -- 1 - t
   | castFloatx                              -- K.cast_to_floatx
+  | recipAreaHW (df : DataFormat)           -- python scalar `1.0 / (t.shape[h] * t.shape[w])` of THIS tensor
+                                            --   (QGlobalAveragePooling2D.compute_pooling_area(inputs.shape))
   deriving DecidableEq, Repr
 
 /-- binary primitives -/
@@ -157,7 +159,15 @@ structure LCfg where
   impl : Nat := 1            -- recurrent `implementation` (1, else fused)
   resetAfter : Bool := false
   keepdims : Bool := false
-  area : Nat := 1            -- pool area (QAveragePooling2D: prod(pool_size); global: H*W of the input)
+  area : Nat := 1            -- pool area of QAveragePooling2D: prod(pool_size), a constructor constant.
+                             --   (QGlobalAveragePooling2D does NOT read it: its area is a function of the
+                             --    tensor of the current call, `Op1.recipAreaHW`)
+  imageDF : DataFormat := .channelsLast
+                             -- the process-wide `K.image_data_format()` AT CALL TIME.  Only `K.bias_add` without a
+                             --   `data_format` argument falls back to it: the recurrent cells (qkeras and stock
+                             --   alike, on rank-2 tensors).  No feed-forward `call` reads it: QDense passes
+                             --   `data_format="channels_last"`, the conv / pooling layers pass `self.data_format`
+                             --   (resolved by the constructor, field `conv.df` / `pool.df`).
 
 inductive Cls
   | dense | activation | conv1d | conv2d | sepConv1d | sepConv2d | dwConv2d
@@ -175,8 +185,14 @@ def withAct (c : LCfg) (t : Term) : Term := if c.hasAct then .actv 0 t else t
 
 def dil0 (g : ConvGeom) : Nat := g.dilation.headD 1
 
+/-- `spatial_start_dim = 1 if self.data_format == 'channels_last' else 2` (1-D layers); also the axis
+    that `Conv._compute_causal_padding` pads -/
+def spatialStart (g : ConvGeom) : Nat := if g.df = .channelsLast then 1 else 2
+
 /-- `K.conv1d`: `padding == "causal"` is expanded inside the backend function into
-    `temporal_padding(x, (dilation * (kernel_shape[0] - 1), 0))` followed by a `valid` convolution -/
+    `temporal_padding(x, (dilation * (kernel_shape[0] - 1), 0))` followed by a `valid` convolution.
+    `temporal_padding` pads AXIS 1 whatever the data format — under `channels_first` that is the
+    channel axis (recorded finding C11-conv1d-causal-channels-first). -/
 def kConv1dOp (g : ConvGeom) (ksz : Nat) (x k : Term) : Term :=
   if g.padding = .causal then
     .op2 (.conv1d { g with padding := .valid }) (.op1 (.padLeft 1 (dil0 g * (ksz - 1))) x) k
@@ -194,7 +210,7 @@ def qDense (c : LCfg) : Term :=
 /-- QActivation.call: `self.quantizer(inputs)` -/
 def qActivation (_ : LCfg) : Term := .actv 0 .input
 
-/-- QConv1D.call (channels_last) -/
+/-- QConv1D.call (both data formats: `data_format=self.data_format` goes to `K.conv1d` and `K.bias_add`) -/
 def qConv1d (c : LCfg) : Term :=
   let k := qw c 0 (.weight 0)
   let out := kConv1dOp c.conv c.kernel .input k
@@ -218,17 +234,19 @@ def sep1dGeom (g : ConvGeom) : ConvGeom :=
     dilation := 1 :: g.dilation
     df := g.df }
 
-/-- QSeparableConv1D.call (channels_last: spatial_start_dim = 1).  The kernels are expanded to 4-D
-    FIRST and the quantizers see the expanded tensors. -/
+/-- QSeparableConv1D.call (`spatial_start_dim` = 1 / 2; causal padding through the stock
+    `_compute_causal_padding`, which pads the time axis of either format).  The kernels are expanded
+    to 4-D FIRST and the quantizers see the expanded tensors. -/
 def qSepConv1d (c : LCfg) : Term :=
-  let x := if c.conv.padding = .causal then .op1 (.padLeft 1 (dil0 c.conv * (c.kernel - 1))) .input
+  let x := if c.conv.padding = .causal then
+             .op1 (.padLeft (spatialStart c.conv) (dil0 c.conv * (c.kernel - 1))) .input
            else Term.input
-  let x := Term.op1 (.expandDims 1) x
+  let x := Term.op1 (.expandDims (spatialStart c.conv)) x
   let dk := Term.op1 (.expandDims 0) (.weight 0)
   let pk := Term.op1 (.expandDims 0) (.weight 1)
   let out := Term.op3 (.separableConv2d (sep1dGeom c.conv)) x (qw c 0 dk) (qw c 1 pk)
   let out := if c.useBias then .op2 (.biasAdd c.conv.df) out (qw c 2 (.weight 2)) else out
-  let out := Term.op1 (.squeeze 1) out
+  let out := Term.op1 (.squeeze (spatialStart c.conv)) out
   withAct c out
 
 /-- QSeparableConv2D.call -/
@@ -243,8 +261,12 @@ def qDwConv2d (c : LCfg) : Term :=
   let out := if c.useBias then .op2 (.biasAdd c.conv.df) out (qw c 1 (.weight 1)) else out
   withAct c out
 
-/-- `1.0 / pool_area` -/
+/-- `1.0 / pool_area` of QAveragePooling2D (`pool_area = np.prod(self.pool_size)`) -/
 def recip (c : LCfg) : Term := .const (1 / (c.area : Rat))
+
+/-- `1.0 / self.compute_pooling_area(input_shape=inputs.shape)` of QGlobalAveragePooling2D: computed
+    in `call` from the tensor of THIS call — nothing from `build` / an earlier call enters -/
+def recipIn (c : LCfg) : Term := .op1 (.recipAreaHW c.pool.df) .input
 
 /-- QAveragePooling2D.call: option #3 of its docstring -/
 def qAvgPool2d (c : LCfg) : Term :=
@@ -259,7 +281,7 @@ def qAvgPool2d (c : LCfg) : Term :=
 def qGlobalAvgPool2d (c : LCfg) : Term :=
   let x :=
     if c.hasQ 0 then
-      Term.op2 .mul (.op1 (.sumHW c.pool.df c.keepdims) .input) (.quant 0 (recip c))
+      Term.op2 .mul (.op1 (.sumHW c.pool.df c.keepdims) .input) (.quant 0 (recipIn c))
     else .op1 (.meanHW c.pool.df c.keepdims) .input
   withAct c x
 
@@ -292,7 +314,8 @@ def kDense (c : LCfg) : Term :=
     (`_compute_causal_padding`: left_pad = dilation_rate[0] * (kernel_size[0] - 1)), the
     convolution op then runs with VALID padding -/
 def kConv1d (c : LCfg) : Term :=
-  let x := if c.conv.padding = .causal then .op1 (.padLeft 1 (dil0 c.conv * (c.kernel - 1))) .input
+  let x := if c.conv.padding = .causal then
+             .op1 (.padLeft (spatialStart c.conv) (dil0 c.conv * (c.kernel - 1))) .input
            else Term.input
   let g := if c.conv.padding = .causal then { c.conv with padding := .valid } else c.conv
   let out := Term.op2 (.conv1d g) x (.weight 0)
@@ -305,14 +328,15 @@ def kConv2d (c : LCfg) : Term :=
 
 /-- SeparableConv1D.call -/
 def kSepConv1d (c : LCfg) : Term :=
-  let x := if c.conv.padding = .causal then .op1 (.padLeft 1 (dil0 c.conv * (c.kernel - 1))) .input
+  let x := if c.conv.padding = .causal then
+             .op1 (.padLeft (spatialStart c.conv) (dil0 c.conv * (c.kernel - 1))) .input
            else Term.input
-  let x := Term.op1 (.expandDims 1) x
+  let x := Term.op1 (.expandDims (spatialStart c.conv)) x
   let dk := Term.op1 (.expandDims 0) (.weight 0)
   let pk := Term.op1 (.expandDims 0) (.weight 1)
   let out := Term.op3 (.separableConv2d (sep1dGeom c.conv)) x dk pk
   let out := if c.useBias then .op2 (.biasAdd c.conv.df) out (.weight 2) else out
-  .op1 (.squeeze 1) out
+  .op1 (.squeeze (spatialStart c.conv)) out
 
 /-- SeparableConv2D.call -/
 def kSepConv2d (c : LCfg) : Term :=
@@ -350,7 +374,9 @@ def u1 (c : LCfg) : Nat := c.units
 def u2 (c : LCfg) : Nat := c.units * 2
 def u3 (c : LCfg) : Nat := c.units * 3
 
-def bAdd (a b : Term) : Term := .op2 (.biasAdd .channelsLast) a b
+/-- `K.bias_add(a, b)` WITHOUT a `data_format` argument (the cells, qkeras and stock): falls back to the
+    process-wide `K.image_data_format()` of the moment of the call -/
+def bAdd (c : LCfg) (a b : Term) : Term := .op2 (.biasAdd c.imageDF) a b
 def tAdd (a b : Term) : Term := .op2 .add a b
 def tMul (a b : Term) : Term := .op2 .mul a b
 def tDot (a b : Term) : Term := .op2 .dot a b
@@ -361,7 +387,7 @@ def qSimpleRNNCell (c : LCfg) : List Term :=
   let qprev := qw c 3 prev
   let k := qw c 0 (.weight 0)
   let h := tDot .input k
-  let h := if c.useBias then bAdd h (qw c 2 (.weight 2)) else h
+  let h := if c.useBias then bAdd c h (qw c 2 (.weight 2)) else h
   let r := qw c 1 (.weight 1)
   let out := tAdd h (tDot qprev r)
   [.actv 0 out]
@@ -369,7 +395,7 @@ def qSimpleRNNCell (c : LCfg) : List Term :=
 /-- SimpleRNNCell.call -/
 def kSimpleRNNCell (c : LCfg) : List Term :=
   let h := tDot .input (.weight 0)
-  let h := if c.useBias then bAdd h (.weight 2) else h
+  let h := if c.useBias then bAdd c h (.weight 2) else h
   let out := tAdd h (tDot (.state 0) (.weight 1))
   [.actv 0 out]
 
@@ -384,7 +410,7 @@ def qLSTMCell (c : LCfg) : List Term :=
     if c.impl = 1 then
       let xg (g : Nat) : Term :=
         let x := tDot .input (.op1 (.split 4 g) qk)
-        if c.useBias then bAdd x (.op1 (.split 4 g) qb) else x
+        if c.useBias then bAdd c x (.op1 (.split 4 g) qb) else x
       let i := Term.actv 1 (tAdd (xg 0) (tDot hPrev (.op1 (.cols 0 (some (u1 c))) qr)))
       let f := Term.actv 1 (tAdd (xg 1) (tDot hPrev (.op1 (.cols (u1 c) (some (u2 c))) qr)))
       let cc := tAdd (tMul f cPrev)
@@ -394,7 +420,7 @@ def qLSTMCell (c : LCfg) : List Term :=
     else
       let z := tDot .input qk
       let z := tAdd z (tDot hPrev qr)
-      let z := if c.useBias then bAdd z qb else z
+      let z := if c.useBias then bAdd c z qb else z
       let zg (g : Nat) : Term := .op1 (.split 4 g) z
       let i := Term.actv 1 (zg 0)
       let f := Term.actv 1 (zg 1)
@@ -412,7 +438,7 @@ def kLSTMCell (c : LCfg) : List Term :=
     if c.impl = 1 then
       let xg (g : Nat) : Term :=
         let x := tDot .input (.op1 (.split 4 g) (.weight 0))
-        if c.useBias then bAdd x (.op1 (.split 4 g) (.weight 2)) else x
+        if c.useBias then bAdd c x (.op1 (.split 4 g) (.weight 2)) else x
       let i := Term.actv 1 (tAdd (xg 0) (tDot hPrev (.op1 (.cols 0 (some (u1 c))) (.weight 1))))
       let f := Term.actv 1 (tAdd (xg 1) (tDot hPrev (.op1 (.cols (u1 c) (some (u2 c))) (.weight 1))))
       let cc := tAdd (tMul f cPrev)
@@ -422,7 +448,7 @@ def kLSTMCell (c : LCfg) : List Term :=
     else
       let z := tDot .input (.weight 0)
       let z := tAdd z (tDot hPrev (.weight 1))
-      let z := if c.useBias then bAdd z (.weight 2) else z
+      let z := if c.useBias then bAdd c z (.weight 2) else z
       let zg (g : Nat) : Term := .op1 (.split 4 g) z
       let i := Term.actv 1 (zg 0)
       let f := Term.actv 1 (zg 1)
@@ -447,32 +473,32 @@ def qGRUCell (c : LCfg) : List Term :=
       let xz := tDot .input (.op1 (.cols 0 (some (u1 c))) qk)
       let xr := tDot .input (.op1 (.cols (u1 c) (some (u2 c))) qk)
       let xh := tDot .input (.op1 (.cols (u2 c) none) qk)
-      let xz := if c.useBias then bAdd xz (.op1 (.vec 0 (some (u1 c))) inB) else xz
-      let xr := if c.useBias then bAdd xr (.op1 (.vec (u1 c) (some (u2 c))) inB) else xr
-      let xh := if c.useBias then bAdd xh (.op1 (.vec (u2 c) none) inB) else xh
+      let xz := if c.useBias then bAdd c xz (.op1 (.vec 0 (some (u1 c))) inB) else xz
+      let xr := if c.useBias then bAdd c xr (.op1 (.vec (u1 c) (some (u2 c))) inB) else xr
+      let xh := if c.useBias then bAdd c xh (.op1 (.vec (u2 c) none) inB) else xh
       let rz := tDot h (.op1 (.cols 0 (some (u1 c))) qr)
       let rr := tDot h (.op1 (.cols (u1 c) (some (u2 c))) qr)
-      let rz := if c.resetAfter && c.useBias then bAdd rz (.op1 (.vec 0 (some (u1 c))) recB) else rz
-      let rr := if c.resetAfter && c.useBias then bAdd rr (.op1 (.vec (u1 c) (some (u2 c))) recB) else rr
+      let rz := if c.resetAfter && c.useBias then bAdd c rz (.op1 (.vec 0 (some (u1 c))) recB) else rz
+      let rr := if c.resetAfter && c.useBias then bAdd c rr (.op1 (.vec (u1 c) (some (u2 c))) recB) else rr
       let z := Term.actv 1 (tAdd xz rz)
       let r := Term.actv 1 (tAdd xr rr)
       let rh :=
         if c.resetAfter then
           let rh := tDot h (.op1 (.cols (u2 c) none) qr)
-          let rh := if c.useBias then bAdd rh (.op1 (.vec (u2 c) none) recB) else rh
+          let rh := if c.useBias then bAdd c rh (.op1 (.vec (u2 c) none) recB) else rh
           tMul r rh
         else tDot (tMul r h) (.op1 (.cols (u2 c) none) qr)
       (.actv 0 (tAdd xh rh), z)
     else
       let mx := tDot .input qk
-      let mx := if c.useBias then bAdd mx inB else mx
+      let mx := if c.useBias then bAdd c mx inB else mx
       let xz := Term.op1 (.split 3 0) mx
       let xr := Term.op1 (.split 3 1) mx
       let xh := Term.op1 (.split 3 2) mx
       let mi :=
         if c.resetAfter then
           let mi := tDot h qr
-          if c.useBias then bAdd mi recB else mi
+          if c.useBias then bAdd c mi recB else mi
         else tDot h (.op1 (.cols 0 (some (2 * c.units))) qr)
       let rz := Term.op1 (.splitUU c.units 0) mi
       let rr := Term.op1 (.splitUU c.units 1) mi
@@ -496,32 +522,32 @@ def kGRUCell (c : LCfg) : List Term :=
       let xz := tDot .input (.op1 (.cols 0 (some (u1 c))) (.weight 0))
       let xr := tDot .input (.op1 (.cols (u1 c) (some (u2 c))) (.weight 0))
       let xh := tDot .input (.op1 (.cols (u2 c) none) (.weight 0))
-      let xz := if c.useBias then bAdd xz (.op1 (.vec 0 (some (u1 c))) inB) else xz
-      let xr := if c.useBias then bAdd xr (.op1 (.vec (u1 c) (some (u2 c))) inB) else xr
-      let xh := if c.useBias then bAdd xh (.op1 (.vec (u2 c) none) inB) else xh
+      let xz := if c.useBias then bAdd c xz (.op1 (.vec 0 (some (u1 c))) inB) else xz
+      let xr := if c.useBias then bAdd c xr (.op1 (.vec (u1 c) (some (u2 c))) inB) else xr
+      let xh := if c.useBias then bAdd c xh (.op1 (.vec (u2 c) none) inB) else xh
       let rz := tDot h (.op1 (.cols 0 (some (u1 c))) (.weight 1))
       let rr := tDot h (.op1 (.cols (u1 c) (some (u2 c))) (.weight 1))
-      let rz := if c.resetAfter && c.useBias then bAdd rz (.op1 (.vec 0 (some (u1 c))) recB) else rz
-      let rr := if c.resetAfter && c.useBias then bAdd rr (.op1 (.vec (u1 c) (some (u2 c))) recB) else rr
+      let rz := if c.resetAfter && c.useBias then bAdd c rz (.op1 (.vec 0 (some (u1 c))) recB) else rz
+      let rr := if c.resetAfter && c.useBias then bAdd c rr (.op1 (.vec (u1 c) (some (u2 c))) recB) else rr
       let z := Term.actv 1 (tAdd xz rz)
       let r := Term.actv 1 (tAdd xr rr)
       let rh :=
         if c.resetAfter then
           let rh := tDot h (.op1 (.cols (u2 c) none) (.weight 1))
-          let rh := if c.useBias then bAdd rh (.op1 (.vec (u2 c) none) recB) else rh
+          let rh := if c.useBias then bAdd c rh (.op1 (.vec (u2 c) none) recB) else rh
           tMul r rh
         else tDot (tMul r h) (.op1 (.cols (u2 c) none) (.weight 1))
       (.actv 0 (tAdd xh rh), z)
     else
       let mx := tDot .input (.weight 0)
-      let mx := if c.useBias then bAdd mx inB else mx
+      let mx := if c.useBias then bAdd c mx inB else mx
       let xz := Term.op1 (.split 3 0) mx
       let xr := Term.op1 (.split 3 1) mx
       let xh := Term.op1 (.split 3 2) mx
       let mi :=
         if c.resetAfter then
           let mi := tDot h (.weight 1)
-          if c.useBias then bAdd mi recB else mi
+          if c.useBias then bAdd c mi recB else mi
         else tDot h (.op1 (.cols 0 (some (2 * c.units))) (.weight 1))
       let rz := Term.op1 (.splitUU c.units 0) mi
       let rr := Term.op1 (.splitUU c.units 1) mi
@@ -610,9 +636,11 @@ def preEnv {T : Type} (c : LCfg) (E : Env T) : Env T :=
 def actOf {T : Type} (c : LCfg) (E : Env T) (v : T) : T := if c.hasAct then E.actv 0 v else v
 
 /-- what a quantizer of slot `p.1` may be applied to: its own weight as stored, its own weight
-    expanded to 4-D (1-D separable), or — pooling — the reciprocal of the pool area -/
+    expanded to 4-D (1-D separable), or — pooling — the reciprocal of the pool area (constructor
+    constant for QAveragePooling2D, area of the current input for QGlobalAveragePooling2D) -/
 def ownTarget (c : LCfg) (p : Nat × Term) : Bool :=
-  p.2 == .weight p.1 || p.2 == .op1 (.expandDims 0) (.weight p.1) || (p.1 == 0 && p.2 == recip c)
+  p.2 == .weight p.1 || p.2 == .op1 (.expandDims 0) (.weight p.1) ||
+    (p.1 == 0 && (p.2 == recip c || p.2 == recipIn c))
 
 /-- cells: weight quantizers on their own weights, the state quantizer (slot 3) on previous states -/
 def ownTargetCell (p : Nat × Term) : Bool :=
@@ -628,5 +656,48 @@ def reportedLiveCell (cls : CellCls) (c : LCfg) : List Nat :=
 
 /-- the state quantizer of a recurrent cell (identity when none) -/
 def stateQ {T : Type} (c : LCfg) (E : Env T) (v : T) : T := if c.hasQ 3 then E.quant 3 v else v
+
+/-! ## one layer OBJECT over its life (histories)
+
+Keras runs `build(input_shape)` once, on the first call; whatever a layer caches there (or in any
+earlier call) is a function of the FIRST input it has seen.  A term that wants to talk about such a
+cache uses `Term.state 0` for "the input of the first call of this object" (the feed-forward `call`
+methods above never do; recurrent cells use `state` for their previous time step and are run through
+`runCell`, which starts every call of the layer from the given initial states). -/
+
+/-- the term mentions no `state` node: nothing but the configuration, the weights, the mask and the
+    input of the current call enters its value -/
+def buildFree : Term → Bool
+  | .state _ => false
+  | .quant _ t => buildFree t
+  | .actv _ t => buildFree t
+  | .op1 _ t => buildFree t
+  | .op2 _ a b => buildFree a && buildFree b
+  | .op3 _ a b c => buildFree a && buildFree b && buildFree c
+  | _ => true
+
+/-- successive calls `xs` of ONE layer object whose `call` is the term `t`: in every call `.input` is the
+    input of that call and `.state _` the input of the object's first call (what `build` saw) -/
+def objectCalls {T : Type} (I : Interp T) (E : Env T) (t : Term) : List T → List T
+  | [] => []
+  | x0 :: xs => (x0 :: xs).map fun x => eval I { E with x := x, state := fun _ => x0 } t
+
+/-- a FRESH object per input: each built on, and called once with, its own input -/
+def freshCalls {T : Type} (I : Interp T) (E : Env T) (t : Term) (xs : List T) : List T :=
+  xs.map fun x => eval I { E with x := x, state := fun _ => x } t
+
+/-- the seeded variant of QGlobalAveragePooling2D (seed C11-5): `build` stores
+    `q(1 / area(build-time input))`, `call` multiplies the pooling sum of the CURRENT input with it -/
+def qGlobalAvgPool2dBuildCached (c : LCfg) : Term :=
+  withAct c (.op2 .mul (.op1 (.sumHW c.pool.df c.keepdims) .input)
+    (.quant 0 (.op1 (.recipAreaHW c.pool.df) (.state 0))))
+
+/-- the seeded variant of QDense (seed C11-6): `K.bias_add(output, quantized_bias)` without the
+    `data_format="channels_last"` argument follows the process-wide switch -/
+def qDenseGlobalBias (c : LCfg) : Term :=
+  let k := qw c 0 (.weight 0)
+  let out := Term.op2 .dot .input k
+  let out := if c.useBias then .op2 (.biasAdd c.imageDF) out (qw c 1 (.weight 1)) else out
+  withAct c out
 
 end QKV.Layers
